@@ -187,8 +187,15 @@ pub fn classify_uncaught_panic(msg: &str) -> Result<crate::framework::Violation,
 /// Run a scenario; a panic that escapes it (single-threaded scenarios run the code under test on
 /// this very thread) is a violation, not a harness crash.
 fn run_scenario(scen: &dyn Scenario, plan: &Value) -> Report {
+    let ev0 = crate::common::SLOW_SUBSCRIBER_EVENTS.load(std::sync::atomic::Ordering::Relaxed);
     match std::panic::catch_unwind(std::panic::AssertUnwindSafe(|| scen.run(plan))) {
-        Ok(r) => r,
+        Ok(mut r) => {
+            let ev = crate::common::SLOW_SUBSCRIBER_EVENTS.load(std::sync::atomic::Ordering::Relaxed) - ev0;
+            if ev > 0 {
+                r.fault("descheduled_inside_tracing_error_event", ev);
+            }
+            r
+        }
         Err(e) => {
             let msg = detsim::sched::panic_message(&e);
             let loc = LAST_PANIC.lock().ok().and_then(|g| g.clone()).unwrap_or_default();
